@@ -50,8 +50,10 @@ def classify(out, l):
     if out.kind == "raise":
         return out.excname
     v = out.value
+    if isinstance(v, Seq) and not v.has_seg() and len({id(x) for x in v.items}) == len(v.items):
+        v = SetV(v.items)       # a duplicate-free list/tuple is as good a "set of links" as a set
     if not isinstance(v, SetV):
-        return f"non-set {show(v)}"
+        return f"not a duplicate-free collection: {show(v)}"
     if not v.items:
         return "no"
     if len(v.items) == 1 and v.items[0] is l:
@@ -131,6 +133,49 @@ def run(ctx):
                           f"find_links says {got!r} but neighbors() {'lists' if ngot == 'OE' else 'does not list'} the other end for the same link and settings",
                           detail=f"link class {cls}, a is {pos}", replay=replay(cls, pos, True, ds, uh, filt))
     res.rule("RELATION", nrel)
+    # ---- several links at once: the result is exactly the set of joining links that qualify one by one, and its size equals the
+    # number of times b occurs in neighbors(a) under the corresponding settings
+    rows = [(c, p_) for c in ("DirectedEdge", "UnDirectedEdge", "SymTwo") for p_ in ("v1", "v2")]
+    ncomp = 0
+    for r1, r2 in itertools.product(rows, rows):
+        for ds, uh, filt in itertools.product((True, False), UHS[:2], ("none", "selective")):
+            try:
+                h.reset()
+                a, b, c = h.vertex("a"), h.vertex("b"), h.vertex("c")
+                ls = []
+                for i, (cls, pos) in enumerate((r1, r2)):
+                    ls.append(h.link(f"L{i}", cls, [a, b] if pos == "v1" else [b, a]))
+                other = h.link("K", "DirectedEdge", [a, c])
+                a.fields["_links"] = Seq([ls[0], other, ls[1]], "list")
+                b.fields["_links"] = Seq(list(ls), "list")
+                c.fields["_links"] = Seq([other], "list")
+                h.settle()
+                cb = None if filt == "none" else c04.mkfilter("selective", (ls[1],))
+                out = h.call(fn, a, b, ds, C[uh], cb)
+                nbcb = None if filt == "none" else c04.mkfilter("selective", (ls[1],))
+                nbo = h.call(nb, a, C["FORWARD"] if ds else C["ANY"], C[uh], nbcb)
+            except Unknown as u:
+                res.ob(False)
+                res.undecide(f"find_links with two joining links {r1},{r2}: {u}")
+                continue
+            ncomp += 1
+            want = []
+            for i, (cls, pos) in enumerate((r1, r2)):
+                f = "none" if cb is None else ("reject" if i == 1 else "accept")
+                if expected(KINDS[cls], pos, True, ds, uh, f) == "yes":
+                    want.append(ls[i])
+            v = out.value if out.kind == "return" else None
+            items = v.items if isinstance(v, (SetV, Seq)) else None
+            ok = items is not None and len(items) == len(want) and all(any(x is w for x in items) for w in want)
+            why = None if ok else f"returns {out!r}; the joining links that qualify one by one are {[w.name for w in want]}"
+            if ok and nbo.kind == "return":
+                cnt = sum(1 for x in nbo.value.items if x is b)
+                if cnt != len(want):
+                    ok, why = False, f"size {len(want)} but b occurs {cnt} time(s) in neighbors(a) under the corresponding settings"
+            res.ob(ok, sig=("multi", r1, r2, ds, uh, filt))
+            if not ok:
+                res.violation("COMPOSE", FN, f"kinds={KINDS[r1[0]]}+{KINDS[r2[0]]},sensitive={ds},unknown={uh},filter={filt}", f"two links {r1},{r2} between a and b plus an unrelated a->c: {why}")
+    res.rule("COMPOSE", ncomp)
     # ---- unlink: afterwards find_links(a, b, *) is empty for every setting; other pairs still found
     unlink = h.fn("edgegraph.builder.explicit.unlink")
     nun = 0
@@ -165,10 +210,11 @@ def run(ctx):
                 ok = o.kind == "return"
                 why = f"unlink raised {o!r}" if not ok else ""
                 for key, r in rows:
+                    coll = r.kind == "return" and isinstance(r.value, (SetV, Seq)) and not (isinstance(r.value, Seq) and r.value.has_seg())
                     if key == ("other-pair",):
-                        good = r.kind == "return" and isinstance(r.value, SetV) and len(r.value.items) == 1 and r.value.items[0] is keep
+                        good = coll and len(r.value.items) == 1 and r.value.items[0] is keep
                     else:
-                        good = r.kind == "return" and isinstance(r.value, SetV) and not r.value.items
+                        good = coll and not r.value.items
                     if not good:
                         ok, why = False, f"after unlink(a, b): find_links{key} -> {r!r}"
                 res.ob(ok, sig=("unlink", classes, poss, tuple(choices)))
